@@ -24,9 +24,10 @@ META = {
         'results pass the non-finite funnel and ValueError/TypeError map to '
         '#VALUE!, FoundError to its payload; (pow) a float power in an operator '
         'core is guarded against complex results, overflow and zero division; '
-        '(nomut) no operator core, parser, wrapper or shared helper '
-        '(replace_empty, ...) writes in place to an operand it received, so '
-        'evaluating an operator cannot change what the next one sees.'),
+        ' (nomut) no operator core, parser, wrapper or shared helper '
+        ' (replace_empty, ...) writes in place to an operand it received, so '
+        'evaluating an operator cannot change what the next one sees.'
+        ' (memo) no memoised helper on an operator path - lru_cache or hand-written dict keyed by raw values - depends on whether a value is a logical or a number.'),
     'not_decided': (
         'Coercion of numeric text and blanks, the display form used by &, '
         'case-insensitive text comparison and numeric values.'),
